@@ -1,0 +1,44 @@
+//go:build verif
+
+package midicat
+
+// Contracts for the deductive verifier in /verif (govc). Comment-only.
+//
+// The midicat line protocol (C19): one record per line, "<decimal time stamp> <hex bytes>\n". The source is the
+// abstract stream of /verif/spec/stdlib.gvs. The conversions of the two fields go through fmt.Sscanf; their
+// contracts are assumed (trusted), see below: what is proved here is the framing.
+
+// read: one byte per call; a byte is consumed only if it is handed on
+//@ func read
+//@ requires rd != nil && 0 <= rd.spos && rd.spos <= rd.sn
+//@ modifies rd.spos, rd.sfault
+//@ ensures [P:C19] result1 == nil ==> (rd.spos == old(rd.spos) + 1 && result0 == rd.sdata[old(rd.spos)])
+//@ ensures [P:C19] result1 != nil ==> rd.spos == old(rd.spos)
+//@ ensures [H] old(rd.spos) <= rd.spos && rd.spos <= rd.sn
+
+// decimal / hexadecimal field conversion (fmt.Sscanf): assumed, not proved
+//@ func convertDelta
+//@ trusted
+//@ ensures err != nil ==> deltams == -1
+
+//@ func convert
+//@ trusted
+//@ ensures err != nil ==> out == nil
+
+// Read: exactly one line is consumed (self-framing), whatever it contains; the bytes before the first space are the
+// time stamp field, the bytes after it (if the line has no second space) are the message field, unchanged
+//@ func Read
+//@ requires rd != nil && 0 <= rd.spos && rd.spos <= rd.sn
+//@ modifies rd.spos, rd.sfault
+//@ ensures [P:C19] err == nil ==> (rd.spos > old(rd.spos) && rd.sdata[rd.spos - 1] == 0x0A && forall i int :: old(rd.spos) <= i && i < rd.spos - 1 ==> rd.sdata[i] != 0x0A)
+//@ ensures [P:C19] err == nil ==> forall s int :: (old(rd.spos) <= s && s < rd.spos - 1 && rd.sdata[s] == 0x20 && (forall i int :: (old(rd.spos) <= i && i < rd.spos - 1 && i != s) ==> rd.sdata[i] != 0x20)) ==> (len(out) == rd.spos - 2 - s && forall k int :: 0 <= k && k < len(out) ==> out[k] == rd.sdata[s + 1 + k])
+//@ ensures [P:C19] err == nil && (forall i int :: old(rd.spos) <= i && i < rd.spos - 1 ==> rd.sdata[i] != 0x20) ==> len(out) == 0
+//@ ensures [H] old(rd.spos) <= rd.spos && rd.spos <= rd.sn
+//@ loop 0 invariant old(rd.spos) <= rd.spos && rd.spos <= rd.sn && err == nil
+//@ loop 0 invariant forall i int :: old(rd.spos) <= i && i < rd.spos ==> rd.sdata[i] != 0x0A
+//@ loop 0 invariant !deltaRead ==> (len(out) == 0 && len(deltaBf) == rd.spos - old(rd.spos) && forall i int :: old(rd.spos) <= i && i < rd.spos ==> rd.sdata[i] != 0x20)
+//@ loop 0 invariant deltaRead ==> (old(rd.spos) + len(deltaBf) < rd.spos && rd.sdata[old(rd.spos) + len(deltaBf)] == 0x20 && forall i int :: old(rd.spos) <= i && i < old(rd.spos) + len(deltaBf) ==> rd.sdata[i] != 0x20)
+//@ loop 0 invariant (deltaRead && (forall i int :: (old(rd.spos) + len(deltaBf) < i && i < rd.spos) ==> rd.sdata[i] != 0x20)) ==> (len(out) == rd.spos - old(rd.spos) - len(deltaBf) - 1 && forall k int :: 0 <= k && k < len(out) ==> out[k] == rd.sdata[old(rd.spos) + len(deltaBf) + 1 + k])
+//@ loop 0 invariant len(out) == 0 || fresh(out)
+//@ loop 0 invariant len(deltaBf) == 0 || fresh(deltaBf)
+//@ loop 0 decreases rd.sn - rd.spos
